@@ -105,9 +105,9 @@ def st_checkauth_any(ir):
         n = len(st.evs('checkAuth'))
         def ok(s):
             bits = z3.BitVec(f'auth{n}.bits', 64); user = z3.String(f'auth{n}.user')
-            ai = am.authinfo_struct(ex, s, bits, user, TimeV(z3.Int(f'auth{n}.exp')), TimeV(z3.Int(f'auth{n}.iat')))
+            ai = am.authinfo_struct(ex, s, bits, user, TimeV(z3.BitVec(f'auth{n}.exp', lib.TW)), TimeV(z3.BitVec(f'auth{n}.iat', lib.TW)))
             s.pc.append(bits & req != 0)
-            s.ev('admitted', bits=bits, user=user, required=req, iat=z3.Int(f'auth{n}.iat'), exp=z3.Int(f'auth{n}.exp'))
+            s.ev('admitted', bits=bits, user=user, required=req, iat=z3.BitVec(f'auth{n}.iat', lib.TW), exp=z3.BitVec(f'auth{n}.exp', lib.TW))
             return (Ptr(s.alloc(ai)), lib.nilerr())
         def bad(s):
             s.ev('fail', code=z3.BitVecVal(401, 64), msg=z3.StringVal('(checkAuth refusal)'))
